@@ -159,7 +159,8 @@ def tptp_validate(pid, suite):
                         samples.append(f"tptp4X accepts problem {name} ({len(text)} bytes)" if pr.returncode == 0 else f"tptp4X rejects {name}")
                     if pr.returncode != 0:
                         n_fail += 1
-                        if pid == "C09" and UNDERSCORE_ID.search(text) and "leading-underscore" in known:
+                        if UNDERSCORE_ID.search(text) and "leading-underscore" in known:
+                            # identifier hygiene is C09's finding; not a formula-rendering (C06) issue
                             classes_seen.add("leading-underscore")
                         else:
                             err = [l for l in pr.stdout.splitlines() if "ERROR" in l][:2]
@@ -182,8 +183,9 @@ def tptp_validate(pid, suite):
                                 classes_seen.add(c)
                             else:
                                 violations.append({"property": pid, "kind": "name-hygiene class not listed as known finding", "class": c, "problem": prob[0]})
-        for c in sorted(classes_seen):
-            findings_seen.append(known[c]["what"])
+        if pid == "C09":
+            for c in sorted(classes_seen):
+                findings_seen.append(known[c]["what"])
         return {"evaluations": n_texts, "distinct_nontrivial": n_texts, "samples": samples,
                 "tptp4X_checked": n_texts, "tptp4X_rejected": n_fail, "hygiene_checked": n_hyg,
                 "known_classes_seen": sorted(classes_seen)}
